@@ -1320,3 +1320,8 @@ LEVEL_NOTE = ("Trusted: Coq kernel+VM, the generator g30_locales (ast -> Gallina
               "non-str, the default-locale stream, the clock-relative glue calls. For differences compared in UTC below 28 days the oracle demands the exact documented "
               "rounding of the TRUE elapsed time, elsewhere 'within one unit'.")
 TECHNIQUE = "Coq proof (structural induction on plural ASTs + finite reflection over generated locale tables) over translated data/code; differential correspondence; stdlib oracle"
+
+
+# ---- model = code theorems for the locale session (appended) ----
+TRUSTED = [t for t in TRUSTED] + ["model_is_code_normalize_locale / _locale_load / _locale_cache_transparent / _locale / _set_locale / _get_locale / _format_diff: Locale.normalize_locale, Locale.load, helpers.locale, set_locale, get_locale and format_diff are translated from /repo on every run (Gen/HumanizeGlue.v, tools/vlib/gens/g18_humanize_glue.py; pendulum._LOCALE and Locale._cache threaded as explicit state) and proved equal to the steps of Model/LocaleSession.v (SSet, SGet, SLoad, SFmt) for every state, cache satisfying cache_ok and argument; the transparency of Locale._cache is now a THEOREM (cache_ok holds of the empty cache and is preserved), not an assumption. By hand: coq/Model/HumanizeObj.v (str = code points, the dict as an association list, re.match of the one locale pattern, existence of a shipped locale directory and import_module = the generated tables); recognised shapes: the existence loop of Locale.load -> a single test (its first iteration raises), set_locale's two statements, the f-strings. STILL hand-written + pinned: DifferenceFormatter.format and Locale.get/translation/plural/ordinal/ordinalize (Model/DiffFormat.v, Model/LocaleBase.v), Duration.in_words / Interval.in_words, DateTime.diff_for_humans, Formatter.format's locale default"]
+LEVEL_NOTE = LEVEL_NOTE + " " + "model_is_code_normalize_locale / _locale_load / _locale_cache_transparent / _locale / _set_locale / _get_locale / _format_diff: Locale.normalize_locale, Locale.load, helpers.locale, set_locale, get_locale and format_diff are translated from /repo on every run (Gen/HumanizeGlue.v, tools/vlib/gens/g18_humanize_glue.py; pendulum._LOCALE and Locale._cache threaded as explicit state) and proved equal to the steps of Model/LocaleSession.v (SSet, SGet, SLoad, SFmt) for every state, cache satisfying cache_ok and argument; the transparency of Locale._cache is now a THEOREM (cache_ok holds of the empty cache and is preserved), not an assumption. By hand: coq/Model/HumanizeObj.v (str = code points, the dict as an association list, re.match of the one locale pattern, existence of a shipped locale directory and import_module = the generated tables); recognised shapes: the existence loop of Locale.load -> a single test (its first iteration raises), set_locale's two statements, the f-strings. STILL hand-written + pinned: DifferenceFormatter.format and Locale.get/translation/plural/ordinal/ordinalize (Model/DiffFormat.v, Model/LocaleBase.v), Duration.in_words / Interval.in_words, DateTime.diff_for_humans, Formatter.format's locale default" + "."
